@@ -25,6 +25,7 @@ def main():
     boot.reexec_if_needed()
     boot.boot()
     seed = a.seed if a.seed is not None else int(os.environ.get('VERIF_SEED', '0') or 0)
+    os.environ['VERIF_TIER_INTERNAL'] = a.tier
     mod = importlib.import_module('checks.' + a.id.lower())
     check = mod.CHECK
     from sim import runner
